@@ -1,29 +1,148 @@
 """C10 (kerning / anchor half) — a variable font reproduces each master's kerning and anchors at that master."""
-from pyvc.api import BOOL, CLASSES, CONTRACTS, INT, REAL, STR, Const, Dict, List, Loop, Named, Opt, Ref, Runtime, Set, Tuple, Union, cls, contract, lemma, specfn, trusted
+from pyvc.api import BOOL, CLASSES, CONTRACTS, INT, REAL, STR, Const, Dict, List, Loop, Map, Named, Opt, Ref, Runtime, Set, Tuple, Union, cls, contract, lemma, specfn, trusted
 
 from . import c05  # noqa: F401  (quantize is under contract there, props C05 + C10)
 
 # =====================================================================================================
 # util.collapse_varscalar: a VariableScalar becomes a plain number exactly when all its values are equal
 #
-# VariableScalar.values is a dict location -> number; the function only enumerates its values.
+# VariableScalar.values is a dict Location -> number (fontTools.feaLib.variableScalar).  A Location is
+# `tuple(sorted(loc.items()))` of a user-space location dict: two Locations are equal iff the dicts are equal as mappings.
+# Model: a Location IS the location dict in a canonical representation (values outside the key set zeroed, key order a
+# function of the key set), so that equality of the representation is equality as mappings.
+
+LOCD = Dict(STR, REAL)  # a design / user location: axis name (resp. tag) -> coordinate
+VALS = Dict(LOCD, REAL)  # VariableScalar.values
 
 
-def _vs_values(ex, st, self, args, kwargs, node):
-    return ex.read_field(st, self, "vals")
+@trusted("fontTools.feaLib.variableScalar.Location", "Location(loc) == tuple(sorted(loc.items())): equal for two dicts iff they are equal as mappings (modelled as the dict in canonical representation)")
+def _location(ex, st, args, kwargs, node):
+    import z3
+
+    from pyvc import models
+    from pyvc.core import Val, fresh, lift
+
+    (d,) = args
+    d = lift(d, LOCD)
+    s = LOCD.sort()
+    k = fresh(STR, "lk")
+    dom = s.dom(d)
+    mp = z3.Lambda([k], z3.If(z3.Select(dom, k), z3.Select(s.map(d), k), z3.RealVal(0)))
+    ckeys = z3.Function("k10_canon_keys", dom.sort(), z3.SeqSort(z3.StringSort()))
+    r = s.mk(dom, mp, ckeys(dom))
+    models.dict_wf(st, LOCD, r)
+    return Val(LOCD, r)
 
 
-cls("VSValues", fields={"vals": List(REAL)}, methods={"values": _vs_values},
-    views={"vals": lambda o: list(o.values())},
-    notes="VariableScalar.values (dict location -> number): `.values()` enumerates the numbers in insertion order (Python dict semantics, assumed)")
-def _wrap_values(o):
-    from pyvc.rt import Proxy
+class _Callable:
+    """a library function usable inside clauses: symbolically a reference to its trusted model, natively the function"""
 
-    return Proxy(o.values, CLASSES["VSValues"])
+    def __new__(cls, fn, qual):
+        from pyvc.symex import FuncRef
+
+        class F(FuncRef):
+            def __call__(self, *a, **k):
+                return self.obj(*a, **k)
+
+        return F(fn, qual)
 
 
-cls("VariableScalar", fields={"values": Ref("VSValues")}, views={"values": _wrap_values}, notes="fontTools.feaLib.variableScalar.VariableScalar (only .values is read)")
+def _loc_native(d):
+    from fontTools.feaLib.variableScalar import Location
 
+    return Location(dict(d))
+
+
+LOCATION = _Callable(_loc_native, "fontTools.feaLib.variableScalar.Location")
+
+
+def _vals_list(ex, st, d):
+    """list(d.values()) as a FUNCTION of the dict (the same term wherever it is mentioned): position i holds the value of
+    the i-th key (Python dict semantics)"""
+    import z3
+
+    from pyvc import models
+    from pyvc.core import Val, fresh_name, lift
+
+    dz = lift(d, VALS)
+    s = VALS.sort()
+    f = z3.Function("k10_values_list", s, z3.SeqSort(z3.RealSort()))
+    r = f(dz)
+    i = z3.Int(fresh_name("vi"))
+    models.dict_wf(st, VALS, dz)
+    st.assume(z3.Length(r) == z3.Length(s.keys(dz)))
+    st.assume(z3.ForAll([i], z3.Implies(z3.And(i >= 0, i < z3.Length(r)), r[i] == z3.Select(s.map(dz), s.keys(dz)[i]))))
+    return Val(List(REAL), r)
+
+
+def _vsv_values(ex, st, self, args, kwargs, node):
+    return _vals_list(ex, st, ex.read_field(st, self, "d"))
+
+
+def _vsv_contains(ex, st, self, key):
+    from pyvc import ops
+
+    return ops.contains(ex.read_field(st, self, "d"), key)
+
+
+def _vsv_getitem(ex, st, self, key, node):
+    return ex.getitem(ex.read_field(st, self, "d"), key, st, node)
+
+
+def _vsv_setitem(ex, st, self, key, value, node):
+    from pyvc import models
+
+    ex.write_field(st, self, "d", models.set_item(ex, st, ex.read_field(st, self, "d"), key, value, node), node)
+
+
+cls("VSValues", fields={"d": VALS}, methods={"values": _vsv_values}, contains=_vsv_contains, getitem=_vsv_getitem, setitem=_vsv_setitem,
+    views={"d": lambda o: _LocDict(o.items())},
+    notes="VariableScalar.values (a dict Location -> number): .d is that dict, `.values()` enumerates the numbers in key order, `in` / [] / []= as for dicts (Python dict semantics, assumed)")
+
+
+def _vs_init(ex, st, self, args, kwargs, node):
+    """VariableScalar(): a new, empty values dict"""
+    from pyvc.core import Val
+
+    vals = ex.new_object(st, "VSValues")
+    ex.write_field(st, vals, "d", Val.const({}), node)
+    ex.write_field(st, self, "values", vals, node)
+
+
+def _vs_add_value(ex, st, self, args, kwargs, node):
+    """VariableScalar.add_value(location, value): self.values[Location(location)] = value  (library source; `self.axes` is
+    empty while a feature writer runs, so no fix_location)"""
+    from pyvc.core import Val
+
+    loc, value = args
+    _vsv_setitem(ex, st, ex.read_field(st, self, "values"), _location(ex, st, [loc], {}, node), value, node)
+    return Val.const(None)
+
+
+_vs_add_value.modifies = ("VSValues.d",)
+
+
+class _LocDict(dict):
+    """VariableScalar.values at run time, addressable by a location dict or by a Location tuple"""
+
+    def __init__(self, items):
+        super().__init__((_key(k), v) for k, v in items)
+
+    def __getitem__(self, k):
+        return super().__getitem__(_key(k))
+
+    def __contains__(self, k):
+        return super().__contains__(_key(k))
+
+
+def _key(k):
+    return tuple(sorted(k.items())) if isinstance(k, dict) else tuple(k)
+
+
+cls("VariableScalar", fields={"values": Ref("VSValues")}, methods={"__init__": _vs_init, "add_value": _vs_add_value},
+    notes="fontTools.feaLib.variableScalar.VariableScalar: .values (Location -> number), add_value (assumed as in the library source)")
+
+_V = "list(varscalar.values.values())"
 contract(
     "ufo2ft.util:collapse_varscalar",
     props=["C10"],
@@ -31,14 +150,14 @@ contract(
     returns=Union(REAL, Ref("VariableScalar")),
     # every caller adds at least one value first: _getAnchor returns before the call when no layer had the anchor,
     # getVariableKerningPairs sets the default location's value just before the call
-    requires=["len(varscalar.values.vals) >= 1"],
+    requires=["len(varscalar.values.d) >= 1"],
     ensures={
         # collapses exactly when the scalar does not vary, and then to that common value ...
-        "constant": "implies(all(v == varscalar.values.vals[0] for v in varscalar.values.vals[1:]), result == varscalar.values.vals[0])",
+        "constant": f"implies(all(v == {_V}[0] for v in {_V}[1:]), result == {_V}[0])",
         # ... otherwise the variable scalar is handed on untouched (same object; no field is written)
-        "varying": "implies(any(v != varscalar.values.vals[0] for v in varscalar.values.vals[1:]), result == varscalar)",
+        "varying": f"implies(any(v != {_V}[0] for v in {_V}[1:]), result == varscalar)",
     },
-    canaries={"always-first": "result == varscalar.values.vals[0]"},
+    canaries={"always-first": f"result == {_V}[0]"},
 )
 
 
@@ -95,7 +214,6 @@ lemma(
 # library's business: an opaque function k10_axis_user(axis, location).
 
 cls("DSAxis", fields={"name": STR, "tag": STR}, notes="designspaceLib AxisDescriptor: name (key of design locations) and OpenType tag")
-LOCD = Dict(STR, REAL)
 
 
 @specfn(REAL, opaque=True, axis=Ref("DSAxis"), location=LOCD)
@@ -214,12 +332,144 @@ contract(
               "designspace.library_axioms"],  # trusted: what getAxis returns (fontTools)
     ensures={
         # one coordinate per axis, keyed by the axis TAG, holding the axis's user-space value of the design location
-        # one coordinate per axis, keyed by the axis TAG, holding the axis's user-space value of the design location
         "every-axis": f"all({_AX}[i].tag in result for i in range(len({_AX})))",
         "per-axis": f"all(result[{_AX}[i].tag] == k10_axis_user({_AX}[i], location) for i in range(len({_AX})))",
+        "only-axes": f"all(any({_AX}[i].tag == t for i in range(len({_AX}))) for t in set(result))",
     },
     canaries={"keyed-by-name": f"all({_AX}[i].name in result for i in range(len({_AX})))"},
 )
+
+
+def _usl_cases(rng, n):
+    out = []
+    for k in range(n):
+        axes = [{"name": "Weight", "tag": "wght", "min": 100, "default": 400, "max": 900, "map": [[100, 20], [400, 80], [900, 200]] if k % 2 else []}]
+        if k % 3:
+            axes.append({"name": "Width", "tag": "wdth", "min": 50, "default": 100, "max": 200, "map": []})
+        if k % 5 == 0:
+            axes.append({"name": "Optical Size", "tag": "opsz", "min": 8, "default": 12, "max": 72, "map": [[8, 0], [12, 10], [72, 100]]})
+        loc = {}
+        for a in axes:
+            if rng.random() < 0.8:  # a coordinate may be missing: the axis default is taken
+                lo, hi = (a["map"][0][1], a["map"][-1][1]) if a["map"] else (a["min"], a["max"])
+                loc[a["name"]] = rng.choice([lo, hi, (lo + hi) / 2, lo + (hi - lo) / 4])
+        out.append({"axes": axes, "location": loc})
+    return out
+
+
+def _usl_build(d):
+    from fontTools.designspaceLib import AxisDescriptor, DesignSpaceDocument
+
+    ds = DesignSpaceDocument()
+    for a in d["axes"]:
+        ax = AxisDescriptor()
+        ax.name, ax.tag, ax.minimum, ax.default, ax.maximum = a["name"], a["tag"], a["min"], a["default"], a["max"]
+        ax.map = [tuple(m) for m in a["map"]]
+        ds.addAxis(ax)
+    return {"designspace": ds, "location": dict(d["location"])}
+
+
+CONTRACTS["ufo2ft.util:get_userspace_location"].runtime = Runtime(_usl_cases, _usl_build)
+
+
+# =====================================================================================================
+# BaseFeatureWriter._getAnchor, variable branch: one VariableScalar entry per source layer that has the glyph and the anchor
+
+
+def _layer_contains(ex, st, self, key):
+    from pyvc import ops
+
+    return ops.contains(ex.read_field(st, self, "glyphs"), key)
+
+
+def _layer_getitem(ex, st, self, key, node):
+    return ex.getitem(ex.read_field(st, self, "glyphs"), key, st, node)
+
+
+def _layers_getitem(ex, st, self, key, node):
+    return ex.getitem(ex.read_field(st, self, "byname"), key, st, node)
+
+
+cls("Anchor", fields={"name": STR, "x": REAL, "y": REAL}, notes="UFO anchor: name, x, y")
+cls("AGlyph", fields={"anchors": List(Ref("Anchor"))}, notes="UFO glyph, as _getAnchor reads it: its list of anchors")
+cls("LayerSet", fields={"byname": Dict(STR, Ref("GlyphLayer"))}, getitem=_layers_getitem,
+    views={"byname": lambda o: {l.name: l for l in o}},
+    notes="font.layers: layer name -> layer")
+cls("GlyphLayer", fields={"glyphs": Dict(STR, Ref("AGlyph")), "layers": Ref("LayerSet")}, contains=_layer_contains, getitem=_layer_getitem,
+    views={"glyphs": lambda o: {n: o[n] for n in o.keys()}},
+    notes="a UFO font (its default layer) or one of its layers: glyph name -> glyph (`in`, []); a font also has .layers")
+cls("DSSource", fields={"layerName": Opt(STR), "font": Ref("GlyphLayer"), "location": LOCD},
+    notes="designspaceLib SourceDescriptor: font (opened UFO), layerName (None for a full source, the layer of a sparse source), location (design coordinates)")
+CLASSES["DSDoc"].fields["sources"] = List(Ref("DSSource"))
+cls("AnchorCtx", fields={"isVariable": BOOL, "font": Ref("DSDoc")}, notes="feature-writer context: font = the designspace document when isVariable")
+cls("AnchorWriter", fields={"context": Ref("AnchorCtx")}, repo="ufo2ft.featureWriters.baseFeatureWriter:BaseFeatureWriter")
+
+_S = "self.context.font.sources"
+_LAYER = "(" + _S + "[{a}].font if " + _S + "[{a}].layerName is None else " + _S + "[{a}].font.layers.byname[" + _S + "[{a}].layerName])"
+_ANCH = _LAYER + ".glyphs[glyphName].anchors"
+_HAS = "(glyphName in " + _LAYER + ".glyphs and any(an.name == anchorName for an in " + _ANCH + "))"
+# no source layer among the first n has the glyph with an anchor of that name (stated without an existential)
+_NONE_HAS = "all(implies(glyphName in " + _LAYER.format(a="s") + ".glyphs, all(an.name != anchorName for an in " + _ANCH.format(a="s") + ")) for s in range({n}))"
+_X, _Y = "x_value.values.d", "y_value.values.d"
+
+# What is proved here: which sources are consulted (every source, full or sparse, through the right layer), when the
+# result is None, and that the two scalars are non-empty when collapse_varscalar is called (no exception on any path).
+# That each entry holds otRound(anchor.x / .y) at the source's own user-space location stays a run-time clause of the
+# hook (vcheck/hooks/c10.py, check 3): with the values dict keyed by location dicts inside heap objects inside two nested
+# loops neither obligation generation (minutes) nor the solvers cope (tried: ghost maps source -> key -> source).
+
+
+def _anchor_invariants(inner):
+    inv = {
+        # found <=> one of the sources dealt with so far has the glyph with an anchor of that name (fs: a witness)
+        "found": "implies(found, 0 <= fs and fs < len(" + _S + ") and " + _HAS.format(a="fs") + f" and len({_X}) >= 1 and len({_Y}) >= 1)",
+        "not-found": "implies(not found, " + _NONE_HAS.format(n="a") + ")",
+    }
+    if inner:
+        inv["glyph"] = "glyphName in " + _LAYER.format(a="a") + ".glyphs and glyph == " + _LAYER.format(a="a") + ".glyphs[glyphName]"
+        inv["not-found-here"] = "implies(not found, all(glyph.anchors[q].name != anchorName for q in range(b)))"
+    return inv
+
+
+contract(
+    "ufo2ft.featureWriters.baseFeatureWriter:BaseFeatureWriter._getAnchor",
+    name="variable",
+    props=["C10"],
+    params={"self": Ref("AnchorWriter"), "glyphName": STR, "anchorName": STR, "anchor": Const(None)},
+    returns=Opt(Tuple(Union(REAL, Ref("VariableScalar")), Union(REAL, Ref("VariableScalar")))),
+    requires=[
+        "self.context.isVariable",
+        # the designspace: axis names / tags are identifiers; what getAxis returns (trusted library)
+        "self.context.font.names_distinct", "self.context.font.tags_distinct", "self.context.font.library_axioms",
+        # the layer of a sparse source exists in its font (designspace validity; the code indexes font.layers with it)
+        f"all({_S}[a].layerName is None or any({_S}[a].layerName == n for n in set({_S}[a].font.layers.byname)) for a in range(len({_S})))",
+    ],
+    # (only the dicts of the two VariableScalars it creates are written; declared for the whole class)
+    modifies=["VSValues.d"],
+    ensures={
+        # None exactly when no source layer - full or sparse, the sparse ones through their layer - has the glyph with an
+        # anchor of that name
+        "none": "implies(result is None, " + _NONE_HAS.format(n=f"len({_S})") + ")",
+        "some": "implies(result is not None, any(" + _HAS.format(a="s") + f" for s in range(len({_S}))))",
+    },
+    canaries={"never-found": "result is None"},
+    merge_branches=False,
+    ghost_vars={"fs": (INT, "0")},
+    ghost={"found = True": ["fs = a"]},
+    loops={
+        "for source in designspace.sources": Loop(index="a", invariants=_anchor_invariants(False)),
+        "for anchor in glyph.anchors": Loop(index="b", invariants=_anchor_invariants(True)),
+    },
+    locals={"found": BOOL},
+)
+
+
+@specfn(INT, x=REAL)
+def k10_round(x):
+    """otRound: the nearest integer, halves upwards"""
+    from fontTools.misc.roundTools import otRound
+
+    return otRound(x)
 
 
 # ---- replay entry of the end-to-end observer (vcheck/hooks/c10.py) ------------------------------------------
